@@ -87,12 +87,13 @@ def one_history(ctx, vh, ws, steps, quick):
             ra, rb = raw_ordered(snap["raw"]), raw_ordered(sb["raw"])
             ra.pop("file_cache", None); rb.pop("file_cache", None)
             dd = diff({"raw": ra}, {"raw": rb})
-            qa = filter_queries(snap["queries"], invalid_now)
-            qb = filter_queries(sb["queries"], invalid_now)
+            last_doc = f if st["valid"] else None
+            qa = filter_queries(snap["queries"], invalid_now, last_doc)
+            qb = filter_queries(sb["queries"], invalid_now, last_doc)
             dq = diff({"queries": qa}, {"queries": qb})
             if dq and not dd and sb2 is not None:
                 # known finding: re-exports of a currently unparsable file vanish for everybody
-                q2 = filter_queries(sb2["queries"], invalid_now)
+                q2 = filter_queries(sb2["queries"], invalid_now, last_doc)
                 has_imports = any(FileModel(latest_valid.get(rel, ws.files[rel])).imports
                                   for rel, txt in current.items() if latest_valid.get(rel) != txt)
                 if not diff({"queries": qa}, {"queries": q2}) and has_imports and ctx.known(KF_INVALID_IMPORTS):
@@ -300,13 +301,15 @@ def lsp_history(ctx, ws, steps):
             B.shutdown()
 
 
-def filter_queries(q, invalid_files):
-    """positions inside a currently-unparsable document are stale by definition: drop answers about it"""
+def filter_queries(q, invalid_files, last_doc=None):
+    """positions inside a currently-unparsable document are stale by definition: drop answers about it.
+    Undeclared-fixture findings are stored per document at ITS last analysis (they depend on what the other files
+    contained at that moment), and the property pins them only for the document changed last."""
     q = norm_queries(q)
+    q["undeclared"] = {f: v for f, v in q["undeclared"].items() if f == last_doc and f not in invalid_files}
     if not invalid_files:
         return q
     q["goto"] = [g for g in q["goto"] if g["usage"][0] not in invalid_files]
-    q["undeclared"] = {f: v for f, v in q["undeclared"].items() if f not in invalid_files}
     return q
 
 
